@@ -70,6 +70,9 @@ def cases(tier, seed):
         extra = [s_ for s_ in C.bch("thorough", seed) if s_[2].get("mu") in (5, 6) and s_[2].get("delta") in (3, 5, 7, 11) and s_[2].get("info") == "left" and "dtype" not in s_[2]]
         for s_ in extra:
             yield f"C02|bch|large-field|{s_[1]}", {"specs": [s_], "tier": tier}
+        # the low-dimensional ends of the two larger fields with the brute-force ML decoder only (Berlekamp-Massey at t = 7 / 15 is the thorough tier's)
+        for s_ in [s_ for s_ in C.bch("thorough", seed) if (s_[2].get("mu"), s_[2].get("delta")) in ((5, 15), (6, 31), (6, 27)) and "dtype" not in s_[2]]:
+            yield f"C02|bch|large-field,ml|{s_[1]}", {"specs": [(s_[0], s_[1] + ",ml-only", dict(s_[2], only="bruteforce"))], "tier": tier}
     for i, seq in enumerate(C.mixing_sequences()):
         if seq[0][0] == "bch":
             seq = seq[:3]          # Berlekamp-Massey costs ~2 ms per word: A, B, B' are enough to expose state shared between decoder instances
@@ -198,11 +201,11 @@ def check(spec, tier, res):
     decs = []
     if n - k <= (10 if q else 11) and (n <= 15 or (fam == "golay") or (not q and n <= 31)) and n - k >= 1:
         decs.append(("syndrome", lambda: D.SyndromeLookupDecoder(enc), True))
-    if k <= (8 if q else 10) and n <= (15 if q else 24):
+    if k <= (8 if q else 10) and (n <= (15 if q else 24) or fam == "bch"):       # (low-dimensional BCH codes of any length: 2^k codewords is what counts)
         decs.append(("bruteforce", lambda: D.BruteForceMLDecoder(enc), True))
         if n <= 7 and fam in ("hamming", "cyclic", "rm", "repetition", "spc"):
             decs.append(("bruteforce-lazy", lambda: D.BruteForceMLDecoder(enc, precompute_codebook=False), True))
-    if fam == "bch":
+    if fam == "bch" and prm.get("only") != "bruteforce":
         decs.append(("bm", lambda: D.BerlekampMasseyDecoder(enc), False))
     if fam == "rm" and prm["m"] <= (4 if q else 5):
         decs.append(("reed", lambda: D.ReedMullerDecoder(enc, input_type="hard"), False))
@@ -236,6 +239,23 @@ def check(spec, tier, res):
                 wcap = 1500 if q else 6000    # total words per (code, decoder)
                 cw_sel = cw_sel[:max(3, wcap // max(1, len(pats)))]
             words, truth = [], {}
+            if not exhaustive and t_adv >= 2:
+                # spliced words: the transmitted codeword with its tail (head) replaced by the tail (head) of ANOTHER codeword, wherever that is within
+                # t errors - a received word that agrees with a wrong codeword on a long stretch
+                sp = 0
+                pool_m = msgs if len(msgs) <= 256 else cw_sel
+                for m in cw_sel[:6]:
+                    for m2 in pool_m:
+                        if m2 == m or sp >= 400:
+                            continue
+                        diff = cb[m] ^ cb[m2]
+                        for cut in sorted({n // 3, n // 2, 2 * n // 3, 24, 25, 27, n - 5} & set(range(1, n))):
+                            for e in (diff & ((1 << cut) - 1), diff & ~((1 << (n - cut)) - 1) & ((1 << n) - 1)):
+                                if 0 < gf2.weight(e) <= t_adv and (cb[m] ^ e) not in truth:
+                                    truth[cb[m] ^ e] = m
+                                    words.append(cb[m] ^ e)
+                                    sp += 1
+                res.bump("spliced_words", sp)
             for m in cw_sel:
                 for e in pats:
                     w = cb[m] ^ e
